@@ -328,6 +328,12 @@ impl<NumericTypes: EvalexprNumericTypes> Node<NumericTypes> {
         &self,
         context: &C,
     ) -> EvalexprResultValue<NumericTypes> {
+        #[cfg(evalexpr_verif)]
+        if let Some(scope) = crate::verif::Evaluation::enter(|| context.verif_snapshot()) {
+            let result = self.eval_with_context(context);
+            scope.leave("imm", self, context.verif_snapshot(), &result);
+            return result;
+        }
         let mut arguments = Vec::new();
         for child in self.children() {
             arguments.push(child.eval_with_context(context)?);
@@ -344,6 +350,12 @@ impl<NumericTypes: EvalexprNumericTypes> Node<NumericTypes> {
         &self,
         context: &mut C,
     ) -> EvalexprResultValue<NumericTypes> {
+        #[cfg(evalexpr_verif)]
+        if let Some(scope) = crate::verif::Evaluation::enter(|| context.verif_snapshot()) {
+            let result = self.eval_with_context_mut(context);
+            scope.leave("mut", self, context.verif_snapshot(), &result);
+            return result;
+        }
         let mut arguments = Vec::new();
         for child in self.children() {
             arguments.push(child.eval_with_context_mut(context)?);
